@@ -589,7 +589,11 @@ fn stats_certificate_probe(rep: &mut Report) {
     let m = 2 * h + 1;
     let tq50 = [0.679428, 1.010755, 1.675905, 2.008559, 2.677793];
     let ps = [0.5, 0.683, 0.9, 0.95, 0.99];
-    for weighted in [false, true] {
+    // (third variant: the same data in an extreme unit, 2^-268: coefficients and the nonlinear columns of H
+    // are tiny, covariance entries spread over 2^-536 .. 1; the correlation matrix is not judged there - the
+    // pinned normalisation sqrt(c_ii c_jj) itself loses precision below 1e-154)
+    for (weighted, yexp) in [(false, 0i32), (true, 0), (false, -268)] {
+        let ysc = (2.0f64).powi(yexp);
         let model0 = FourierModel::<T>::new(n, h, 1.0);
         let w: Option<Vec<T>> = if weighted { Some((0..n).map(|i| 0.5 + ((i * 7) % 11) as f64 / 8.0).collect()) } else { None };
         let pt = model0.phi64(1.03);
@@ -598,9 +602,9 @@ fn stats_certificate_probe(rep: &mut Report) {
             for j in 0..m {
                 v += pt[(i, j)] * (((j * 5) % 7) as f64 - 2.5) / (1.0 + j as f64);
             }
-            v + 0.02 * (((i * 13) % 17) as f64 - 8.0)
+            (v + 0.02 * (((i * 13) % 17) as f64 - 8.0)) * ysc
         });
-        let flav = format!("statistics certificate probe M={} P=1 N={} weighted={}", m, n, weighted);
+        let flav = format!("statistics certificate probe M={} P=1 N={} weighted={} data x 2^{}", m, n, weighted, yexp);
         let det = |what: &str, dv: f64| json!({"flavour": flav, "what": what, "dev": dv});
         let Ok(prob) = build_problem(FourierModel::<T>::new(n, h, 1.0), false, false, &y, w.as_deref(), None) else {
             rep.tool_error(format!("cannot build {flav}"));
@@ -643,7 +647,12 @@ fn stats_certificate_probe(rep: &mut Report) {
             rep.violation("C13", det("covariance shape", 0.0));
             continue;
         }
-        let prod = &st.cov * &g;
+        // (compared after undoing the scaling of the nonlinear column, so that the cancellations in the
+        // product happen between numbers of one magnitude)
+        let sof = |a: usize| if a < m { 1.0 } else { ysc };
+        let cov_u = DMatrix::from_fn(k, k, |a, b| st.cov[(a, b)] * sof(a) * sof(b));
+        let g_u = DMatrix::from_fn(k, k, |a, b| g[(a, b)] / (sof(a) * sof(b)));
+        let prod = &cov_u * &g_u;
         let mut worst = 0.0f64;
         for a in 0..k {
             for b in 0..k {
@@ -661,7 +670,9 @@ fn stats_certificate_probe(rep: &mut Report) {
                 wc = nmax(wc, (st.corr[(a, b)] - e).abs());
             }
         }
-        rep.check("C13", wc <= 1e-9, wc, || det("correlation differs from cov_ij / sqrt(cov_ii cov_jj)", wc));
+        if yexp == 0 {
+            rep.check("C13", wc <= 1e-9, wc, || det("correlation differs from cov_ij / sqrt(cov_ii cov_jj)", wc));
+        }
         for (pi, (pv, band)) in st.bands.iter().enumerate() {
             let mut wb = 0.0f64;
             let mut scale = 0.0f64;
